@@ -85,7 +85,7 @@ def _base(draw, tier, nugget=False):
 def gen_locality(draw, tier="quick"):
     case = draw(_base(tier))
     dim = case["spec"]["dim"]
-    case["variant"] = draw(st.sampled_from(["perm", "subset", "split", "struct", "mesh_points", "mesh_centroids", "store"]))
+    case["variant"] = draw(st.sampled_from(["perm", "subset", "split", "struct", "mesh_points", "mesh_centroids", "store", "big_batch"]))
     if case["variant"] == "struct":
         case["axes"] = [draw(st.lists(st.floats(-5, 5), min_size=1, max_size=4, unique=True)) for _ in range(dim)]
     else:
@@ -162,6 +162,22 @@ def check_locality(case, rec):
             cmp(np.concatenate([fa, fb], axis=-1), ref, "two batches")
             again = lib(srf, pos, seed=case["seed"], _tags=tags)
             cmp(again, ref, "full set after batches (same seed re-submitted)")
+        elif var == "big_batch":
+            # the same points inside one very large request (mode_no * points > 2e7 for the default mode number)
+            nb = 26000 if g != "Fourier" else 4000
+            fill = np.random.RandomState(case["perm_seed"]).uniform(-50, 50, (dim, nb))
+            big_kw = dict(kw)
+            if g != "Fourier":
+                big_kw["mode_no"] = 1000
+            srf_b = lib(_fresh_srf, model, g, big_kw, case["seed"], _tags=tags)
+            small = lib(srf_b, pos, _tags=tags)
+            where_ = np.sort(np.random.RandomState(case["perm_seed"] + 1).choice(nb, n, replace=False))
+            allp = fill.copy()
+            allp[:, where_] = pos
+            fb = lib(srf_b, allp, _tags=tags)
+            err = float(np.max(np.abs(np.asarray(fb)[..., where_] - np.asarray(small))))
+            rec.discrepancy(var, err, tol)
+            require(err <= tol, f"{g}: values inside a request of {nb} points differ from the same points requested alone by {err:.3g}", tags)
         elif var == "store":
             f = lib(srf, pos, store="other_name", _tags=tags)
             cmp(f, ref, "store under another name")
@@ -219,6 +235,8 @@ def gen_history(draw, tier="quick", twin=False):
         op = {"op": k}
         if k in ("call_seed", "seed_setter"):
             op["seed"] = draw(st.one_of(st.integers(0, 300), st.integers(257, 2**32 - 1)))
+            # a new seed *next to* the current one (e.g. 20170519 -> 20170520): relative to the running seed
+            op["near"] = draw(st.sampled_from([None, None, 1, -1, 7, 1000]))
         elif k == "param":
             names = ["var", "len_scale"] + (["anis", "angles"] if dim > 1 and g != "VectorField" else []) + (["opt"] if spec["opt"] else [])
             op["name"] = draw(st.sampled_from(names))
@@ -286,6 +304,13 @@ def _nontrivial_history(case):
     )
 
 
+def _next_seed(cur, op):
+    """Seed of a call_seed / seed_setter op: absolute, or a neighbour of the current seed."""
+    if op.get("near") is not None and isinstance(cur, int):
+        return max(0, min(2**32 - 1, cur + op["near"]))
+    return op["seed"]
+
+
 def _consistent(gen, g, tags, where):
     """Array shapes inside the generator must be mutually consistent before a kernel is called."""
     if g == "Fourier":
@@ -325,7 +350,7 @@ def check_history(case, rec):
             try:
                 if k.startswith("call"):
                     if k == "call_seed":
-                        cur_seed = op["seed"]
+                        cur_seed = _next_seed(cur_seed, op)
                         f = srf(pos, seed=cur_seed)
                     elif k == "call_same":
                         f = srf(pos, seed=int(str(cur_seed)))
@@ -357,7 +382,7 @@ def check_history(case, rec):
                 elif k == "reassign":
                     srf.model = copy.deepcopy(srf.model)
                 elif k == "seed_setter":
-                    cur_seed = op["seed"]
+                    cur_seed = _next_seed(cur_seed, op)
                     srf.generator.seed = cur_seed
                 elif k == "mode_no":
                     kw["mode_no"] = op["v"]
